@@ -167,6 +167,8 @@ class Model:
                     h.cycle_time = (d['cyc'] + (part._vseq % d['cycmod'])) * TICK
                 if d.get('offmod') and part._vseq % 2 == 0:
                     h.offset_next_cycle_time(d['offmod'] * TICK)
+                if d.get('offmod2') and part._vseq % 2 == 0:
+                    h.offset_next_cycle_time(d['offmod2'] * TICK)      # a second call: offsets are cumulative
                 tr.occ('recv', d['id'], part, h)
                 if k == 'sink' and d.get('vadd'):
                     # a receive callback of the sink that changes the part afterwards: the sink is credited
